@@ -438,6 +438,9 @@ class Drive:
         self.hb: list[tuple] = []  # (phase, ids, ids of the workers alive / of all workers created at that moment)
         self.next_arg = 0
         self.found: list[tuple[dict, dict]] = []
+        self.stats = {"heartbeat_calls_checked": 0, "dead_worker_invocations_seen_recoverable": 0,
+                      "live_worker_invocations_seen_protected": 0, "workers_forgotten_in_first_iteration": 0,
+                      "workers_replaced": 0}
         orig = self.orch.register_runner_heartbeats
 
         def spy(runner_ids: list, can_run_atomic_service: bool = False) -> Any:
@@ -581,6 +584,7 @@ class Drive:
         known = {self.wid(p): p for p in self.os.procs}
         seen: set = set()
         for phase, ids, alive_then, known_then in self.hb[mark:]:
+            self.stats["heartbeat_calls_checked"] += 1
             for rid in ids:
                 seen.add(rid)
                 if rid in known_then and rid not in alive_then:
@@ -614,8 +618,11 @@ class Drive:
         if stale:
             self.bad("dead-worker-not-forgotten-within-2-iterations", tracked=flags, stale_workers=stale,
                      round=self.round_no)
+        untracked_dead = sum(1 for p in self.os.procs if p.died_round == self.round_no) - flags.count("d")
+        self.stats["workers_forgotten_in_first_iteration"] += untracked_dead
         lo, hi = bounds(self.cfg, queued, live_after_deaths, killed_now)
         live = len(self.live_tracked())
+        self.stats["workers_replaced"] += max(0, live - live_after_deaths)
         if live < lo:
             self.bad("pool-not-refilled-within-2-iterations", live_tracked=live, expected_at_least=lo, tracked=flags,
                      queued_before_iteration=queued, died_since_previous_iteration=killed_now, round=self.round_no)
@@ -662,9 +669,13 @@ class Drive:
             elif p.is_alive():
                 if p.inv in scan:
                     self.bad("live-worker-invocation-recoverable", when="timeout elapsed, then one heartbeat report", worker=p.idx)
+                else:
+                    self.stats["live_worker_invocations_seen_protected"] += 1
             elif p.inv not in scan:
                 self.bad("dead-worker-invocation-not-recoverable", worker=p.idx, died_round=p.died_round,
                          seconds_since_death_at_least=T_MIN * 60 + 1.0)
+            else:
+                self.stats["dead_worker_invocations_seen_recoverable"] += 1
 
     # -- state identity --------------------------------------------------
     def flags(self) -> str:
@@ -740,6 +751,8 @@ def _expand(p: Partial, cfg: dict, level: list, reported: set, mixed: bool) -> t
             _report(p, cfg, d, h2, reported, "second-iteration+probe")
             p.count("workers_spawned", len(d.os.procs))
             p.max("max_workers_in_one_history", len(d.os.procs))
+            for k, v in d.stats.items():
+                p.count(k, v)
     return every, reps
 
 
@@ -817,6 +830,14 @@ def run(ctx: Ctx) -> None:
         ctx.merge(part)
     for part in parts:
         ctx.merge(part)
+    # samples: per runner class the recorded real fault sequence with the most deaths
+    best: dict = {}
+    for part in [r for r, _ in roots] + parts:
+        for smp in part.samples:
+            cls = smp["configuration"].split("[")[0]
+            if cls not in best or _stress(tuple(smp["a_deepest_fault_sequence"])) > _stress(tuple(best[cls]["a_deepest_fault_sequence"])):
+                best[cls] = smp
+    ctx.samples = [best[k] for k in sorted(best)] + [x for x in ctx.samples if x not in best.values()][:3]
     ctx.count("subtree_units", len(subs))
     ctx.max("depth_completed", depth)
     r1 = [resource.getrusage(w) for w in (resource.RUSAGE_SELF, resource.RUSAGE_CHILDREN)]
